@@ -61,15 +61,19 @@ structure GetObs where
 
 def step (s : St) : Op → St × Option GetObs
   | .add key typ ver valid =>
-    let hadPath := match s.store.get? key with | some e => e.hasPath | none => false
+    -- a Secret's type is immutable: another type under the same key is a re-created Secret, and the files of the old type are
+    -- not the files of the new one — they are removed, the new ones are written by the next lookup (fix of S-C11-c)
+    let retyped := match s.store.get? key with | some e => e.hasPath && e.typ ≠ typ | none => false
+    let dir0 := if retyped then deleteFiles s.dir key else s.dir
+    let hadPath := match s.store.get? key with | some e => e.hasPath && !retyped | none => false
     let e : Entry := ⟨typ, ver, valid, hadPath⟩
     if hadPath then
       if !valid then
-        ({ store := s.store.set key { e with hasPath := false }, dir := deleteFiles s.dir key }, none)
+        ({ store := s.store.set key { e with hasPath := false }, dir := deleteFiles dir0 key }, none)
       else
-        let (dir, p) := writeFiles s.dir key e
+        let (dir, p) := writeFiles dir0 key e
         ({ store := s.store.set key { e with hasPath := p }, dir := dir }, none)
-    else ({ s with store := s.store.set key e }, none)
+    else ({ store := s.store.set key e, dir := dir0 }, none)
   | .del key =>
     match s.store.get? key with
     | none => (s, none)
